@@ -252,7 +252,7 @@ def run(ctx):
         "evaluations": tot["requests"], "distinct_nontrivial": tot["protected_requests"],
         "rule": "every (rule, method) of the live url_map (%d) x %d judged credential shapes (+%d recorded only) x instance id kinds x bodies x %d server states; "
                 "non-trivial = request to a protected rule" % (rule_methods, len(CREDENTIALS), len(OPEN_CREDENTIALS), len(STATES)),
-        "states": STATES, "credentials": [c for c, _ in CREDENTIALS], "open_credentials_observed": open_notes,
+        "server_states": STATES, "credentials": [c for c, _ in CREDENTIALS], "open_credentials_observed": open_notes,
         "samples": [{"state": "live-session", "request": "POST /<live id>/run-step", "credential": "Bearer " + TOKEN[:-1], "body": "valid"},
                     {"state": "externalised-on-disk", "request": "POST /<externalised id>/stop-instance", "credential": "absent", "body": "none"}],
     }, assumptions=["Flask test client (no real WSGI server)", "`Basic <token>` and `Bearer <token> x` are recorded, not judged"])
